@@ -98,7 +98,7 @@ func sharedMode(t *testing.T, rec *Recorder) {
 						}
 						for i := 0; i < sc.Iters; i++ {
 							v, raw, crashed := exampleRaw(solo, seedOf(k, i))
-							if sc.Gen.K == "Permutation" && !crashed {
+							if (sc.Gen.K == "Permutation" || sc.Gen.K == "MapSampled") && !crashed {
 								useUp(raw)
 							}
 							rec.Emit("solo", F{"key": fmt.Sprintf("r%d/k%d/i%d", round, k, i), "draws": v, "crashed": crashed})
@@ -177,7 +177,7 @@ func sharedMode(t *testing.T, rec *Recorder) {
 							v, raw, c := exampleRaw(mine, seedOf(k, i))
 							results[k] = append(results[k], v)
 							crashes[k] = append(crashes[k], c)
-							if sc.Gen.K == "Permutation" && !c {
+							if (sc.Gen.K == "Permutation" || sc.Gen.K == "MapSampled") && !c {
 								useUp(raw) // the check uses its value up (in place); the shared generator must not notice
 								posts[k] = append(posts[k], deepVal(raw))
 							} else {
